@@ -97,6 +97,9 @@ pub fn scenarios() -> Vec<(&'static str, fn() -> Option<String>)> {
         ("one-file-two-spellings (C03)", sc_two_spellings),
         ("root-spellings-stay-inside (C11)", sc_root_spellings),
         ("long-non-ascii-names (C12)", sc_long_names),
+        ("another-servers-same-length-same-second-commit-is-seen (C03)", sc_stale_view),
+        ("refused-path-of-600k-escapable-bytes-still-answered (C11/C12)", sc_long_refused_path),
+        ("put-under-a-file-keeps-stream-in-step (C12)", sc_parent_is_a_file),
     ]
 }
 
@@ -171,6 +174,82 @@ fn sc_cas_under_lock() -> Option<String> {
     let n = [&a, &b].iter().filter(|x| matches!(x, Some(Response::PutResult { committed: true, .. }))).count();
     let _ = s1.close_and_wait(5); let _ = s2.close_and_wait(5);
     if n != 1 { return Some(format!("two servers each got Put(doc, expected = hash of the content both saw): {n} of them answered committed:true - exactly one may commit (lost update) (C03)")); }
+    None
+}
+/// C03 across server processes on ONE connection each: server 2 looks at `doc` (a refused Delete), server 1 then commits a
+/// replacement of the SAME LENGTH within the SAME wall-clock second; server 2's next compare-and-swap against the old hash
+/// must be refused - its decision has to come from the file as it is under the lock, not from anything it saw earlier
+fn sc_stale_view() -> Option<String> {
+    for round in 0..2 {
+        let r = root(&format!("stale{round}"));
+        let (mut s1, mut s2) = (Srv::start(&r)?, Srv::start(&r)?); s1.magic(); s2.magic();
+        // warm both servers up, then start right after a second boundary so that everything below shares one mtime second
+        let _ = s1.get("nothing"); let _ = s2.get("nothing");
+        let ms = std::time::SystemTime::now().duration_since(std::time::UNIX_EPOCH).ok()?.subsec_millis();
+        std::thread::sleep(Duration::from_millis(u64::from(1000 - ms) + 20));
+        std::fs::write(r.join("doc"), b"XXXX").ok()?;
+        s2.send(&Request::Delete { path: "doc".into(), expected: Some(h(b"not-the-content")) });
+        match s2.recv(10) { Some(Response::DeleteResult { deleted: false, .. }) => {} o => return Some(format!("Delete(doc, expected = a wrong hash) was not refused: {o:?} (C03)")) }
+        match s1.put("doc", Some(h(b"XXXX")), b"YYYY") { Some(Response::PutResult { committed: true, .. }) => {} o => return Some(format!("Put(doc, expected = hash of the live content) did not commit: {o:?} (C03)")) }
+        let took = std::time::SystemTime::now().duration_since(std::time::UNIX_EPOCH).ok()?.subsec_millis();
+        if round == 0 {
+            let a = s2.put("doc", Some(h(b"XXXX")), b"ZZZZ");
+            let live = std::fs::read(r.join("doc")).unwrap_or_default();
+            if matches!(a, Some(Response::PutResult { committed: true, .. })) || live != b"YYYY" {
+                return Some(format!("server 1 committed YYYY over XXXX (same length, same second; {took} ms into the second); server 2, which had looked at the file before, then got Put(doc, expected = hash of XXXX) and answered {a:?}; the file now holds {:?} - a commit against a hash the file no longer has (lost update) (C03)", String::from_utf8_lossy(&live)));
+            }
+        } else {
+            s2.send(&Request::Delete { path: "doc".into(), expected: Some(h(b"XXXX")) });
+            let a = s2.recv(10);
+            if matches!(a, Some(Response::DeleteResult { deleted: true, .. })) || !r.join("doc").exists() {
+                return Some(format!("server 1 committed YYYY over XXXX (same length, same second); server 2, which had looked at the file before, then got Delete(doc, expected = hash of XXXX) and answered {a:?}; file still there: {} (C03)", r.join("doc").exists()));
+            }
+        }
+        let _ = s1.close_and_wait(5); let _ = s2.close_and_wait(5); let _ = std::fs::remove_dir_all(&r);
+    }
+    None
+}
+/// C11/C12: a refused path is still answered, whatever it is made of: ~600 KB of bytes that a debug rendering would each
+/// blow up (quotes, control characters), in a request frame that is itself within the 1 MiB limit
+fn sc_long_refused_path() -> Option<String> {
+    let r = root("longbad"); std::fs::write(r.join("inside.txt"), b"inside").ok()?;
+    let mut s = Srv::start(&r)?; s.magic();
+    for (what, p) in [("600000 double quotes after a leading slash", format!("/{}", "\"".repeat(600_000))), ("../ followed by 250000 U+0001 characters", format!("../{}", "\u{1}".repeat(250_000))), ("/ followed by 500000 backslashes", format!("/{}", "\\".repeat(500_000)))] {
+        for kind in 0..3 {
+            match kind {
+                0 => { s.send(&Request::Get { path: p.clone() }); }
+                1 => { s.send(&Request::Delete { path: p.clone(), expected: None }); }
+                _ => { let body = vec![b'b'; 5000]; s.send(&Request::Put { path: p.clone(), expected: None, len: 5000, hash: h(&body) }); s.raw(&body); }
+            }
+            let kn = ["Get", "Delete", "Put"][kind];
+            match s.recv(15) { Some(Response::Error(_)) => {} o => return Some(format!("{kn} with a refused path ({what}; the request frame is {} bytes, below the 1 MiB limit): expected an Error reply, got {} (C11)", p.len() + 64, match o { None => "NO reply (the server stopped answering)".to_string(), Some(x) => format!("{x:?}").chars().take(80).collect() })) }
+            match s.get("inside.txt") { Some((6, _, v)) if v == b"inside" => {}
+                o => return Some(format!("after the refused {kn} ({what}) the next request (Get inside.txt) did not get its normal reply: {:?} - the session is lost (C12)", o.map(|x| x.0))) }
+        }
+    }
+    let _ = s.close_and_wait(5); let _ = std::fs::remove_dir_all(&r);
+    None
+}
+/// C12: a Put whose parent directory cannot be made (a FILE is in the way). Whatever the server answers, the announced
+/// content bytes are content: they are never read as requests. The body here is itself a well-formed Delete frame.
+fn sc_parent_is_a_file() -> Option<String> {
+    for depth in ["blocker/x.bin", "blocker/sub/dir/x.bin"] {
+        let r = root("parentfile"); std::fs::write(r.join("blocker"), b"i am a file").ok()?; std::fs::write(r.join("keep.txt"), b"keep me").ok()?;
+        let mut s = Srv::start(&r)?; s.magic();
+        let mut body: Vec<u8> = vec![];
+        write_frame(&mut body, &Request::Delete { path: "keep.txt".into(), expected: Some(h(b"keep me")) }).ok()?;
+        s.send(&Request::Put { path: depth.into(), expected: None, len: body.len() as u64, hash: h(&body) }); s.raw(&body);
+        let a = s.recv(10);
+        if a.is_some() {
+            // the server chose to answer: then the session goes on, and it must go on IN STEP
+            match s.get("keep.txt") { Some((7, _, v)) if v == b"keep me" => {}
+                o => return Some(format!("Put({depth:?}) under a path that is a FILE was answered {a:?}; the next request (Get keep.txt) then got {:?} instead of its content - the Put's content bytes were taken for a request (C12)", o.map(|x| x.0))) }
+        }
+        let _ = s.close_and_wait(5);
+        if std::fs::read(r.join("keep.txt")).ok().as_deref() != Some(b"keep me") { return Some(format!("Put({depth:?}) under a path that is a FILE, with a body that spells a Delete frame: keep.txt was deleted - content bytes were executed as a request (C12)")); }
+        if std::fs::read(r.join("blocker")).ok().as_deref() != Some(b"i am a file") { return Some(format!("Put({depth:?}): the file `blocker` in the way was changed (C12)")); }
+        let _ = std::fs::remove_dir_all(&r);
+    }
     None
 }
 fn sc_committed_means_live() -> Option<String> {
